@@ -335,6 +335,13 @@ def tower_callsites():
                 con, beta, scaled = k * rsome.pnorm(e, 3) <= t, [1, 2], True
             elif kind == "pnorm(5,2)":
                 con, beta, scaled = k * rsome.pnorm(e, (5, 2)) <= t, [2, 3], True
+            elif kind == "pnorm(3,2)":
+                # a degree between 1 and 2: the weight of the per-entry auxiliary (b) is the LARGER one
+                con, beta, scaled = k * rsome.pnorm(e, (3, 2)) <= t, [2, 1], True
+            elif kind == "pnorm(5,4)":
+                con, beta, scaled = k * rsome.pnorm(e, (5, 4)) <= t, [4, 1], True
+            elif kind == "power(3,2)":
+                con, beta, scaled = k * rsome.power(e, 3, 2) <= t, [2, 1], False
             elif kind == "power3":
                 con, beta, scaled = k * rsome.power(e, 3) <= t, [1, 2], False
             elif kind == "power(5,2)":
@@ -447,7 +454,7 @@ def tower_callsites():
         # k*gmean(in) >= t  is carried by  t <= -k*head  (the head ranges over [-gmean, gmean])
         return p_implies(feas, p_le(tv, -k * head))
 
-    for kind in ("pnorm3", "pnorm(5,2)", "power3", "power(5,2)", "power-mixed[1,3]", "power-mixed[(5,2),(2,2)]", "gmean", "gmean[2,3,4]", "gmean[6,4,9]"):
+    for kind in ("pnorm3", "pnorm(5,2)", "pnorm(3,2)", "pnorm(5,4)", "power(3,2)", "power3", "power(5,2)", "power-mixed[1,3]", "power-mixed[(5,2),(2,2)]", "gmean", "gmean[2,3,4]", "gmean[6,4,9]"):
         obs, _ = check_function("rsome.socp:Model.do_math(primal)", make(kind), lambda ns: ns["F"],
                                 [post("tower-operands-are-the-scaled-argument-and-fresh-auxiliaries-with-documented-weights", operands),
                                  post("linear-rows-tie-the-tower-to-the-constraint-as-written", rows)],
